@@ -7,13 +7,21 @@ python3 - <<'PY'
 import os, sys, json
 sys.path.insert(0, os.getcwd())
 import vlib
+sys.path.insert(0, "props")
+for f in sorted(os.listdir("props")):
+    if f.endswith(".py"):
+        m = __import__(f[:-3])
+        if hasattr(m, "pre_proof"):
+            m.pre_proof()
 vlib.ensure_makefile()
-rc, out = vlib.sh(["make", "-j16"], cwd=vlib.COQ, timeout=7200)
-print(out[-3000:])
-if rc != 0:
-    sys.exit("coq build failed")
 man = json.load(open("MANIFEST.json"))
+targets = ["theories/Properties/%s.vo" % c["property_id"] for c in man["checks"]]
+rc, out = vlib.sh(["make", "-k", "-j16"] + targets, cwd=vlib.COQ, timeout=7200)
+print(out[-3000:])
 bad = 0
+if rc != 0:
+    print("SETUP PROBLEM: coq build failed for some target")
+    bad += 1
 for c in man["checks"]:
     pid = c["property_id"]
     try:
